@@ -4,7 +4,7 @@
 TREE=${1:-/repo}; shift
 OUT=$(mktemp -d /tmp/suite.XXXXXX)
 cd "$TREE" && env -u DASK_VERIF /venv/bin/python -m pytest -q -p no:cacheprovider --timeout=900 --continue-on-collection-errors -n ${SUITE_N:-6} --junitxml=$OUT/j.xml "$@" > $OUT/log.txt 2>&1
-/venv/bin/python - "$OUT/j.xml" "$@" <<'PY'
+SUITE_TREE="$TREE" /venv/bin/python - "$OUT/j.xml" "$@" <<'PY'
 import sys, json, xml.etree.ElementTree as ET
 base = set(json.load(open('/root/.vp/BASELINE.json'))['stable_pass'])
 root = ET.parse(sys.argv[1]).getroot()
@@ -17,6 +17,24 @@ for tc in root.iter('testcase'):
 seen = passed | set(bad)
 restrict = len(sys.argv) > 2
 missing = sorted(t for t in base if t not in passed and (not restrict or t in seen))
+if 0 < len(missing) <= 25:
+    # flaky under load? re-run just those tests once, serially
+    import subprocess, os
+    ids = [t.split("::")[0].replace(".", "/") + ".py::" + t.split("::", 1)[1] for t in missing]
+    out2 = sys.argv[1] + ".retry.xml"
+    env = {k: v for k, v in os.environ.items() if k != "DASK_VERIF"}
+    subprocess.run(["/venv/bin/python", "-m", "pytest", "-q", "-p", "no:cacheprovider", "--timeout=900", "--junitxml=" + out2] + ids,
+                   cwd=os.environ.get("SUITE_TREE", "."), env=env, stdout=subprocess.DEVNULL, stderr=subprocess.DEVNULL)
+    try:
+        for tc in ET.parse(out2).getroot().iter('testcase'):
+            tid = f"{tc.get('classname')}::{tc.get('name')}"
+            if not [c for c in tc if c.tag in ('failure', 'error', 'skipped')]:
+                passed.add(tid)
+        retried = len(missing)
+        missing = sorted(t for t in missing if t not in passed)
+        print(f"retried {retried} not-passed tests serially: {retried - len(missing)} passed on retry")
+    except Exception as e:
+        print("retry failed:", e)
 print(f"ran={len(seen)} passed={len(passed)} baseline={len(base)} baseline_not_passed={len(missing)}")
 for t in missing[:40]: print("  NOT PASSED:", t, bad.get(t, 'not run'))
 sys.exit(1 if missing else 0)
